@@ -490,6 +490,16 @@ pub fn c03() -> i32 {
         let out = explore(&scns, &cfg, &no_judge);
         rep.absorb("F: inputs handed to spectators (pauses around the 60-slot ring, slow spectators, host-side drops after the ring has wrapped)", out, &["C03", "PANIC"], json!({"k": 0, "scenarios": n}));
     }
+    // statuses handed to spectators when stale and fresh host packets reach them in any order
+    // around a drop
+    {
+        let t = rep.thorough();
+        let scns = crate::props::drop::spectator_reorder_scenarios("c03-spectator-reorder");
+        let k = if t { 3 } else { 2 };
+        let cfg = ExploreCfg { k: Some(k), wall: Duration::from_secs(if t { 600 } else { 30 }), ..Default::default() };
+        let out = explore(&scns, &cfg, &no_judge);
+        rep.absorb("G: host->spectator Input packets delayed/dropped (reordered) around the round in which the host registers a drop: what the spectator is handed must still be truthful", out, &["C03", "PANIC"], json!({"k": k, "configs": scns.len()}));
+    }
     vacuity(&mut rep);
     rep.finish()
 }
